@@ -121,7 +121,9 @@ def theorems_of(module):
     if m and ns and ns[-1] == m.group(1):
       ns.pop()
       continue
-    m = re.match(r"\s*(?:@\[[^\]]*\]\s*)?(?:private\s+|protected\s+)?theorem\s+(\S+)", line)
+    if re.match(r"\s*(?:@\[[^\]]*\]\s*)?private\s+theorem\s", line):
+      continue   # private helpers cannot be named from the audit file; their axioms are included in those of the theorems using them
+    m = re.match(r"\s*(?:@\[[^\]]*\]\s*)?(?:protected\s+)?theorem\s+(\S+)", line) or re.match(r"\s*alias\s+(\S+)\s*:=", line)
     if m:
       out.append((".".join(ns + [m.group(1)]), ln))
   return out
